@@ -341,6 +341,27 @@ func init() {
 				tryUnknown(n + "," + n)
 			}
 		}
+		// near misses of every listed name: the other severity prefixes, a prefix of another spelling, the name without its
+		// prefix, with a doubled or missing separator, with the words of its tail swapped, with a trailing dot or slash
+		for _, n := range names {
+			if len(n) < 3 {
+				continue
+			}
+			for _, pre := range []string{"e_", "w_", "n_", "i_", "E_", "x_", ""} {
+				tryUnknown(pre + n[2:])
+			}
+			tryUnknown(n[:1] + n[2:])
+			tryUnknown(n[:2] + "_" + n[2:])
+			tryUnknown(n + "_")
+			tryUnknown(n + ".")
+			tryUnknown(n + "/")
+			tryUnknown("lint_" + n)
+			tryUnknown(n + ".go")
+			if i := strings.LastIndex(n, "_"); i > 2 {
+				tryUnknown(n[:i])
+				tryUnknown(n[:i] + n[i+1:])
+			}
+		}
 		out.Data["unknown_names_accepted"] = unknownAccepted
 
 		// profiles
